@@ -1,2 +1,31 @@
-(* C08 — property theorems only (placeholder until proofs/ChunkedProofs.v is complete). *)
-From S3V Require Import lib.Bytes model.Chunked.
+(* C08 — property theorems only. All statements hold for every signing function [sign] (the concrete one is
+   the HMAC-SHA256 chain of SigV4Core.chunk_sign), every declared length, seed, framing and input. *)
+From S3V Require Import lib.Bytes model.Chunked proofs.ChunkedProofs.
+
+(* Whatever the input bytes and their framing: the delivered bytes are the data of a chain of chunks each of
+   whose presented signatures equals the signature computed over the previous one, starting at the seed (so no
+   byte of an unverified chunk is delivered); and the body ends successfully only if that chain ends with a
+   verified zero-length chunk and the delivered length is the declared decoded length. *)
+Theorem C08_only_verified : forall sign declared seed frames te d t,
+  run sign declared seed frames te = (d, t) ->
+  exists cs, chain_ok sign seed cs /\ d = datas cs /\
+    (t = CleanEnd -> length d = declared /\ exists cs' sg, cs = cs' ++ [(sg, [])]).
+Proof. exact only_verified. Qed.
+Check C08_only_verified : forall sign declared seed frames te d t,
+  run sign declared seed frames te = (d, t) ->
+  exists cs, chain_ok sign seed cs /\ d = datas cs /\
+    (t = CleanEnd -> length d = declared /\ exists cs' sg, cs = cs' ++ [(sg, [])]).
+Print Assumptions C08_only_verified.
+
+(* tamper evidence reduced to a collision of the signing function: a chunk accepted under the signature that
+   was issued for other data means the two data collide under [sign] *)
+Theorem C08_tamper_needs_collision : forall sign p sg d d' r,
+  chain_ok sign p ((sg, d') :: r) -> sg = sign p d -> sign p d' = sign p d.
+Proof. intros sign p sg d d' r [H _] E. congruence. Qed.
+Print Assumptions C08_tamper_needs_collision.
+
+(* the outcome does not depend on the transport framing *)
+Theorem C08_framing_independent : forall sign declared seed f1 f2 te,
+  concat f1 = concat f2 -> run sign declared seed f1 te = run sign declared seed f2 te.
+Proof. exact same_bytes_same_run. Qed.
+Print Assumptions C08_framing_independent.
